@@ -78,7 +78,7 @@ def _optional_keys_accepted(facts, res, w, r):
             ks = [x[2] for x in walk(t) if x[0] == "const" and x[1] == "str" and x[2] in opt]
             if ks:
                 return ks[0], l.truth is True
-        if l.kind == "variant" and l.variants and l.variants <= {"Some", "None"}:
+        if l.kind == "variant" and l.variants in ({"Some"}, {"None"}):
             pt = peel(t)
             if pt[0] == "call" and callee_name(pt) == "get":
                 ks = [x[2] for x in walk(pt) if x[0] == "const" and x[1] == "str" and x[2] in opt]
@@ -126,7 +126,7 @@ def _optional_keys_accepted(facts, res, w, r):
                         absent.append((hk, l))
                     elif hk:
                         present.add(hk)
-                elif l.kind == "variant" and l.variants and l.variants <= {"Some", "None"}:
+                elif l.kind == "variant" and l.variants in ({"Some"}, {"None"}):
                     hk = holder_key(l.term)
                     if hk and l.variants == {"None"}:
                         absent.append((hk, l))
